@@ -124,7 +124,7 @@ func c12R1(e *Engine) {
 			e.fail("R1", fmt.Sprintf("%s:%s×%d", e.fname(fn), k, counts[k]), firstPos[k], "%d site(s) of %s on the number path: values are computed in binary floating point instead of exact decimals", counts[k], k)
 		}
 	}
-	if n < 10 {
+	if n < 5 {
 		e.fail("R1", "count:R1", "-", "only %d lossy sites found; the census has lost sight of the numeric path", n)
 	}
 }
@@ -213,27 +213,36 @@ func c12R3(e *Engine) {
 		return
 	}
 	n := 0
+	// one finding per key list (not per call site): which stored list is ordered/searched as plain text, found through
+	// helpers by tracing the sorted/searched slice back to the field it comes from
+	lists := map[string]string{}
+	sites := map[string]int{}
 	for _, fn := range e.funcs("core") {
-		kinds := map[string]string{}
 		instrs(fn, func(in ssa.Instruction) {
 			c, ok := in.(*ssa.Call)
 			if !ok {
 				return
 			}
 			name := staticCalleeName(c)
-			if name != "sort.Strings" && name != "sort.SearchStrings" {
+			if name != "sort.Strings" && name != "sort.SearchStrings" && name != "slices.Sort" && name != "slices.BinarySearch" {
 				return
 			}
-			f, _ := loadedField(c.Call.Args[0])
-			if f == cs.SortedKeys || f == cs.sortedKeys {
-				kinds[fieldOwner(f)+"."+f.Name()+":"+strings.TrimPrefix(name, "sort.")] = e.ipos(in)
+			for _, o := range e.origins(c.Call.Args[0]) {
+				for _, f := range []*types.Var{cs.SortedKeys, cs.sortedKeys} {
+					if strings.HasSuffix(o, "field:"+fieldOwner(f)+"."+f.Name()) {
+						k := fieldOwner(f) + "." + f.Name()
+						sites[k]++
+						if lists[k] == "" || e.ipos(in) < lists[k] {
+							lists[k] = e.ipos(in)
+						}
+					}
+				}
 			}
 		})
-		ks := sortedKeys(kinds)
-		for _, k := range ks {
-			n++
-			e.fail("R3", e.fname(fn)+":"+k, kinds[k], "the key list is ordered/searched as plain strings: for number- or binary-typed sort keys the text order differs from the value order (9 sorts after 10, -1 before -2), so Query returns them out of order and range conditions on the key are answered from a wrongly ordered list")
-		}
+	}
+	for _, k := range sortedKeys(lists) {
+		n++
+		e.fail("R3", "core:"+k+":text-order", lists[k], "the key list %s is ordered/searched as plain strings (%d site(s)): for number- or binary-typed sort keys the text order differs from the value order (9 sorts after 10, -1 before -2), so Query returns them out of order and range conditions on the key are answered from a wrongly ordered list", k, sites[k])
 	}
 	// the secondary-index comparator compares key text too
 	lk := e.fn("core", "index.lessKey")
@@ -242,7 +251,7 @@ func c12R3(e *Engine) {
 		e.fail("R3", "core.index.lessKey:string-compare", e.pos(lk.Pos()), "index entries are ordered by comparing key strings")
 	}
 	if n < 3 {
-		e.fail("R3", "count:R3", "-", "only %d ordering sites found", n)
+		e.fail("R3", "count:R3", "-", "only %d ordered key lists found", n)
 	}
 }
 
